@@ -25,7 +25,7 @@ func (x *Exec) execInstrPartial(fr *Frame, b *ssa.BasicBlock, ins ssa.Instructio
 			}
 			x.inlineStack = x.inlineStack[:depth]
 			x.vc.sideStack = x.vc.sideStack[:sdepth]
-			x.vc.abstracted = append(x.vc.abstracted, fmt.Sprintf("partial: path abandoned at %s (%s): %s", x.posOf(fr.fn, ins.Pos()), ins.String(), ee.msg))
+			x.note(fmt.Sprintf("abstracted (partial mode): path abandoned at %s (%s): %s; nothing after it is checked on this path", x.posOf(fr.fn, ins.Pos()), ins.String(), ee.msg))
 			abandoned = true
 		}
 	}()
@@ -39,7 +39,7 @@ func (x *Exec) execInstrPartial(fr *Frame, b *ssa.BasicBlock, ins ssa.Instructio
 		}
 		for _, sa := range fr.fc.StopAfter {
 			if name != "" && matchCallee(name, sa) {
-				x.vc.abstracted = append(x.vc.abstracted, fmt.Sprintf("partial: by contract (stopafter %s) nothing after %s is executed on this path", sa, x.posOf(fr.fn, ins.Pos())))
+				x.note(fmt.Sprintf("abstracted (partial mode): by contract (stopafter %s) nothing after %s is executed or checked", sa, x.posOf(fr.fn, ins.Pos())))
 				return true
 			}
 		}
